@@ -35,6 +35,7 @@ type run struct {
 	eng      *fovc.Engine
 	obls     []*fovc.Obligation
 	funcs    []string
+	depFuncs []string
 	assumed  map[string]bool
 	deps     map[string]bool
 	notes    []string
@@ -139,20 +140,58 @@ func main() {
 	if *only != "" {
 		keys = strings.Split(*only, ",")
 	}
-	for _, k := range keys {
-		fr, err := eng.VerifyFunc(k, prop)
+	done := map[string]bool{}
+	verify := func(k string, p string, dep bool) {
+		done[k] = true
+		fr, err := eng.VerifyFunc(k, p)
 		if err != nil {
 			// a contract without its function (renamed / deleted): fail closed
 			r.obls = append(r.obls, &fovc.Obligation{Name: k + "/exists", Func: k, Kind: "exists", Clause: "function under contract exists: " + err.Error(), Result: "missing", Solver: "loader"})
-			continue
+			return
 		}
-		r.funcs = append(r.funcs, k)
+		if dep {
+			r.depFuncs = append(r.depFuncs, k)
+		} else {
+			r.funcs = append(r.funcs, k)
+		}
 		r.obls = append(r.obls, fr.Obls...)
 		for _, a := range fr.Assumed {
 			r.assumed[a] = true
 		}
 		for _, d := range fr.Deps {
 			r.deps[d] = true
+		}
+	}
+	for _, k := range keys {
+		verify(k, prop, false)
+	}
+	// the property's proof relies on the contracts of the callees: verify those functions too (all their
+	// clauses), transitively, so that a change inside a callee that breaks its contract is reported by
+	// this property's check as well
+	if *only == "" {
+		for changed := true; changed; {
+			changed = false
+			var ds []string
+			for d := range r.deps {
+				ds = append(ds, d)
+			}
+			sort.Strings(ds)
+			for _, d := range ds {
+				k := d
+				if i := strings.Index(k, " ("); i >= 0 {
+					k = k[:i]
+				}
+				if done[k] {
+					continue
+				}
+				c := eng.CS.Funcs[k]
+				if c == nil || c.Extern || c.Trusted || c.Inline {
+					done[k] = true
+					continue
+				}
+				verify(k, "", true)
+				changed = true
+			}
 		}
 	}
 	timeout := 10
@@ -262,7 +301,7 @@ func main() {
 	if *only == "" {
 		writeEvidence(r, cfg, nOb, nDis, solverTally, solverTime, wall, len(vios), kf, knownHit)
 	}
-	fmt.Printf("property=%s tier=%s functions=%d obligations=%d discharged=%d violations=%d wall=%.1fs\n", prop, *tier, len(r.funcs), nOb, nDis, len(vios), wall)
+	fmt.Printf("property=%s tier=%s functions=%d (+%d callees) obligations=%d discharged=%d violations=%d wall=%.1fs\n", prop, *tier, len(r.funcs), len(r.depFuncs), nOb, nDis, len(vios), wall)
 	os.Exit(exit)
 }
 
@@ -384,6 +423,7 @@ func writeEvidence(r *run, cfg propCfg, nOb, nDis int, tally map[string]int, sol
 		"checker_cmd":               fmt.Sprintf("cd /verif && ./bin/check %s --tier %s", r.prop, r.tier),
 		"trusted_base":              trusted,
 		"functions_under_contract":  r.funcs,
+		"callee_functions_also_verified": r.depFuncs,
 		"contracts_relied_on":       deps,
 		"discharged_by_backend":     tally,
 		"solver_time_s":             round3(solverTime),
